@@ -1088,9 +1088,15 @@ class AbelianArray(BlockBase):
 
         if charge is None:
             if self._blocks:
-                # infer the charge total from any sector
+                # infer the charge total from any sector, n.b. each charge
+                # contributes with the sign given by its index's dualness
                 sector = next(iter(self._blocks))
-                self._charge = self.symmetry.combine(*sector)
+                self._charge = self.symmetry.combine(
+                    *(
+                        self.symmetry.sign(c, ix.dual)
+                        for c, ix in zip(sector, self._indices)
+                    )
+                )
             else:
                 # default to the identity charge
                 self._charge = self.symmetry.combine()
